@@ -68,8 +68,7 @@ func (u *Unsubscribe) Pack(w io.Writer) error {
 
 // Unpack read the packet bytes from io.Reader and decodes it into the packet struct.
 func (u *Unsubscribe) Unpack(r io.Reader) error {
-	restBuffer := make([]byte, u.FixHeader.RemainLength)
-	_, err := io.ReadFull(r, restBuffer)
+	restBuffer, err := readRemaining(r, u.FixHeader.RemainLength)
 	if err != nil {
 		return codes.ErrMalformed
 	}
